@@ -1524,7 +1524,16 @@ fn gen_history(id: &str, rng: &mut Rng, len: usize, ill: u64, stats: &mut Stats)
                 if matches!(out, Out::E(_) | Out::S(_)) {
                     stats.bump("rebuild_distance(insertions between first build and rebuild)", bucket(before - size0));
                     if *r0 != res {
-                        stats.inc("rebuilds_with_different_result");
+                        // the only calls allowed to differ: lit(array value) with >= 2 entries (store order = HashMap
+                        // iteration order) and calls whose first issue panicked
+                        let multi = matches!(&op, Op::LitArr { dense, entries, .. } if dense.is_some() || entries.len() >= 2);
+                        stats.inc(if multi {
+                            "lit_array_same_value_other_store_order"
+                        } else if r0.starts_with("P(") {
+                            "rebuild_after_panic"
+                        } else {
+                            "rebuilds_with_different_result"
+                        });
                     }
                 }
             }
